@@ -162,7 +162,8 @@ def setup_as_dict(it, cfg):
     attrs = cfg["attrs"]
     advalue = it.fresh("ad_value", "Int")
     arg = {"none": None, "list": ["name", "pid"], "empty": [], "bad": ["name", "bogus"], "str": "name",
-           "tuple": ("ppid",), "set": {"status"}}[attrs]
+           "tuple": ("ppid",), "set": {"status"}, "badset": {"name", "bogus"}, "badtuple": ("bogus",),
+           "badfrozen": frozenset({"bogus"})}[attrs]
     return {"args": {"self": o, "attrs": arg, "ad_value": advalue},
             "spec": {"vals": vals, "behaviour": behaviour, "mode": attrs, "adv": advalue, "NAMES": NAMES},
             "values": [advalue]}
@@ -173,7 +174,8 @@ def h_queries(it, log):
 
 
 AD_CFGS = [{"attrs": a, "behaviour": b} for a in ("none", "list", "empty", "bad", "str", "tuple", "set")
-           for b in ("value", "denied", "zombie", "gone", "notimpl")]
+           for b in ("value", "denied", "zombie", "gone", "notimpl")] + \
+          [{"attrs": a, "behaviour": "value"} for a in ("badset", "badtuple", "badfrozen")]
 
 REGISTRY.add(Contract(
     "C16", INIT, "Process.as_dict", setup=setup_as_dict, env=ENV, configs=AD_CFGS, inline=["pid"],
@@ -191,10 +193,43 @@ REGISTRY.add(Contract(
     ],
     raises={
         "TypeError": ["mode == 'str'", "len(log) == 0"],                   # rejected before querying anything
-        "ValueError": ["mode == 'bad'", "len(log) == 0"],
+        "ValueError": ["mode in ('bad', 'badset', 'badtuple', 'badfrozen')", "len(log) == 0"],   # whatever the collection type
         "NoSuchProcess": ["behaviour == 'gone'", "log[-1] == ('oneshot', 'exit')"],
         "NotImplementedError": ["behaviour == 'notimpl'", "mode == 'list'", "log[-1] == ('oneshot', 'exit')"],
     },
     canaries=["len(result) == 17"], replay=None,
     note="exactly the requested keys; ad_value for AccessDenied/ZombieProcess; NoSuchProcess propagates; unknown names "
          "(ValueError) and non-collections (TypeError) rejected before any query"))
+
+
+# --- the shared per-process records are read-only for their users -----------------------------------------------------
+# Inside a block the dict _parse_stat_file() returns IS the cached record every other method will read: a method that
+# writes into it changes what later methods answer ("returns what it would return outside the block").
+from . import C06 as _c06   # noqa: E402
+
+
+def _stash_parsed(it, env):
+    d = _c06.ret_parsed(it, env)
+    it.ctx.ghost["parsed_dict"] = d
+    it.ctx.ghost["parsed_snapshot"] = dict(d)
+    return d
+
+
+REGISTRY.add(Contract("C16", LINUX_PY, "Process._parse_stat_file", name="_parse_stat_file(shared record)", callee_only=True,
+                      returns=_stash_parsed, raises={"NoSuchProcess": None, "ZombieProcess": None, "AccessDenied": None}))
+
+
+def h_untouched(it):
+    d, snap = it.ctx.ghost.get("parsed_dict"), it.ctx.ghost.get("parsed_snapshot")
+    if d is None:
+        return True
+    return set(d) == set(snap) and all(d[k] is snap[k] for k in snap)
+
+
+for _m in ("name", "ppid", "cpu_num", "status", "cpu_times"):
+    REGISTRY.add(Contract(
+        "C16", LINUX_PY, f"Process.{_m}", setup=_c06.setup_acc, env=ENV,
+        helpers=dict(_c06.HELPERS, untouched=h_untouched), decorated=True, raises_any=True,
+        inline=["_is_zombie", "_raise_if_zombie", "decode"],
+        ensures=["untouched()"], canaries=[], replay=None,
+        note="reads the shared stat record without modifying it"))
